@@ -180,6 +180,140 @@ func Catalogue(prop, tier string) []Cfg {
 		c := pc("v1", []uint{2, 1}, 3, "fair", []int{2}, []int{1, 1}, "pool", "")
 		c.Script = 2
 		add(c)
+	case "C08", "C09", "C10", "C11":
+		jc := func(disc string, j int, nocopy bool, cp int, n int, timeout int64, inacc uint, pauses, delays, retain []int64) Cfg {
+			c := Cfg{Harness: "join", Disc: disc, J: j, NoCopy: nocopy, Cap: []int{cp}, N: []int{n}, Timeout: timeout, Inacc: inacc, Pauses: pauses, Delays: delays, Retain: retain, Bound: -1}
+			if disc == "unite2" {
+				switch j {
+				case 1:
+					c.Lens = []int{0, 1, 2}
+				case 2:
+					c.Lens = []int{0, 1, 2, 3}
+				default:
+					c.Lens = []int{0, 1, j - 1, j, j + 1}
+				}
+			}
+			return c
+		}
+		switch prop {
+		case "C08":
+			for _, disc := range []string{"join2", "unite2", "join1"} {
+				// copy mode: keep and scribble; no-copy: retain while producer pushes and ticks fire
+				add(jc(disc, 2, false, 2, 5, 0, 0, nil, nil, nil))
+				add(jc(disc, 2, false, 1, 4, 4, 25, []int64{0, 5}, []int64{0, 3}, nil))
+				add(jc(disc, 2, true, 2, 5, 0, 0, nil, nil, []int64{0, 1}))
+				add(jc(disc, 2, true, 1, 4, 4, 25, []int64{0, 2}, []int64{0}, []int64{0, 6}))
+				add(jc(disc, 3, true, 0, 5, 4, 50, []int64{0, 5}, []int64{0}, []int64{0, 5}))
+			}
+			c := jc("join2", 2, true, 1, 3, 4, 25, []int64{0, 5}, []int64{0}, []int64{0, 5})
+			c.Late, c.Horizon = 1, 30
+			add(c)
+			c = jc("join2", 2, false, 1, 3, 4, 25, []int64{0, 5}, []int64{0, 2}, nil)
+			c.Late, c.Horizon = 1, 30
+			add(c)
+			for _, stop := range []string{"stop", "cancel"} {
+				for _, mode := range []string{"", "norelease"} {
+					c := jc("join1", 2, true, 1, 4, 4, 25, []int64{0, 5}, []int64{0}, []int64{0, 5})
+					c.Stop, c.Mode = stop, mode
+					add(c)
+					c = jc("join1", 2, true, 2, 5, 0, 0, nil, nil, []int64{0, 1})
+					c.Stop, c.Mode = stop, mode
+					add(c)
+				}
+			}
+		case "C09":
+			for _, disc := range []string{"join2", "unite2", "join1"} {
+				for _, j := range []int{1, 2, 3} {
+					add(jc(disc, j, false, 1, 2*j+1, 0, 0, nil, nil, nil))
+				}
+				add(jc(disc, 2, true, 0, 5, 0, 0, nil, nil, nil))
+				add(jc(disc, 2, false, 1, 4, 4, 25, []int64{0, 1, 5}, []int64{0, 2}, nil))
+				add(jc(disc, 3, false, 1, 5, 4, 50, []int64{0, 3, 5}, []int64{0}, nil))
+				add(jc(disc, 2, true, 1, 4, 3, 100, []int64{0, 2, 4}, []int64{0}, []int64{0, 4}))
+			}
+			c := jc("join2", 2, false, 1, 3, 4, 25, []int64{0, 5}, []int64{0, 2}, nil)
+			c.Late, c.Horizon = 1, 30
+			add(c)
+			c = jc("unite2", 2, false, 1, 3, 4, 25, []int64{0, 5}, []int64{0}, nil)
+			c.Late, c.Horizon = 1, 30
+			add(c)
+			if !quick {
+				c = jc("join2", 2, false, 1, 3, 4, 25, []int64{0, 5}, []int64{0, 2}, nil)
+				c.Late, c.Horizon = 2, 30
+				add(c)
+				add(jc("unite2", 3, false, 1, 7, 4, 25, []int64{0, 5}, []int64{0}, nil))
+			}
+		case "C10":
+			for _, disc := range []string{"join2", "unite2", "join1"} {
+				for _, tc := range []struct {
+					t     int64
+					inacc uint
+				}{{8, 25}, {4, 25}, {4, 50}, {3, 100}, {8, 50}} {
+					for _, nocopy := range []bool{false, true} {
+						c := jc(disc, 3, nocopy, 1, 3, tc.t, tc.inacc, []int64{0, 1, 3, tc.t + 1}, []int64{0}, []int64{0})
+						c.Mode = "flush"
+						c.Tail = 3 * tc.t
+						add(c)
+					}
+				}
+				c := jc(disc, 2, false, 2, 4, 8, 25, []int64{0, 1, 5, 9}, []int64{0}, []int64{0})
+				c.Mode, c.Tail = "flush", 20
+				add(c)
+			}
+		case "C11":
+			for _, j := range []int{1, 2, 3} {
+				for _, nocopy := range []bool{false, true} {
+					add(jc("unite2", j, nocopy, 1, 2*j+2, 0, 0, nil, nil, nil))
+					add(jc("unite2", j, nocopy, 0, 2*j+1, 4, 25, []int64{0, 5}, []int64{0}, nil))
+				}
+			}
+			c := jc("unite2", 2, false, 1, 4, 4, 25, []int64{0, 5}, []int64{0, 3}, nil)
+			c.Late, c.Horizon = 1, 30
+			add(c)
+		}
+	case "C04", "C12":
+		lc := func(q uint64, i int64, cp, n int, pauses, delays []int64, mode string) Cfg {
+			return Cfg{Harness: "limit", Q: q, I: i, Cap: []int{cp}, N: []int{n}, Pauses: pauses, Delays: delays, Mode: mode, Bound: -1}
+		}
+		if prop == "C04" {
+			for _, q := range []uint64{1, 2, 3} {
+				for _, i := range []int64{2, 3} {
+					n := int(2*q + 1)
+					add(lc(q, i, 0, n, []int64{0, 1, i}, []int64{0, 1}, ""))
+					add(lc(q, i, int(q)+1, n, []int64{0, 3 * i}, []int64{0, i}, ""))
+					add(lc(q, i, 1, n, []int64{0, 1}, []int64{0, 1, i}, ""))
+				}
+			}
+			// prefilled bursts
+			add(lc(2, 3, 7, 7, nil, []int64{0, 1, 3}, "prefill"))
+			add(lc(3, 2, 10, 10, nil, []int64{0, 2}, "prefill"))
+			c := lc(2, 3, 1, 4, []int64{0, 1, 3}, []int64{0, 1}, "")
+			c.Late, c.Horizon = 1, 20
+			add(c)
+			c = lc(1, 2, 0, 3, []int64{0, 2}, []int64{0, 1}, "")
+			c.Late, c.Horizon = 1, 12
+			add(c)
+			if !quick {
+				add(lc(3, 3, 4, 10, []int64{0, 1, 9}, []int64{0, 1, 3}, ""))
+				c = lc(2, 3, 1, 5, []int64{0, 1, 3}, []int64{0, 1}, "")
+				c.Late, c.Horizon = 2, 25
+				add(c)
+			}
+		} else {
+			for _, q := range []uint64{1, 2, 3} {
+				for n := 0; n <= int(3*q+1); n++ {
+					add(lc(q, 3, n+1, n, nil, []int64{0}, "prefill"))
+					if n%2 == 0 {
+						add(lc(q, 3, 0, n, []int64{0}, []int64{0}, "prefill"))
+					}
+				}
+				add(lc(q, 2, 1, int(2*q+1), []int64{0, 1, 2}, []int64{0, 1}, ""))
+				add(lc(q, 2, 0, int(2*q), []int64{0, 3}, []int64{0, 2}, ""))
+			}
+			c := lc(2, 3, 1, 4, []int64{0, 1, 3}, []int64{0, 1}, "")
+			c.Late, c.Horizon = 1, 20
+			add(c)
+		}
 	case "C16":
 		for _, stop := range []string{"stop", "cancel"} {
 			for _, mode := range []string{"", "norelease", "noread"} {
